@@ -319,6 +319,8 @@ fn probes() -> Vec<(&'static str, TxnCase)> {
         ("new-table-with-index-then-nested-begin", TxnCase { schema: s2.clone(), pre: pre.clone(), body: vec![Stmt::Raw("CREATE TABLE u (k INT PRIMARY KEY, w INT)".into()), Stmt::Raw("INSERT INTO u VALUES (1, 1)".into()), Stmt::Raw("CREATE INDEX uw ON u (w)".into()), Stmt::Begin], commit: false }),
         ("drop-indexed-table-then-nested-begin", TxnCase { schema: s2.clone(), pre: pre.clone(), body: vec![Stmt::Raw("DROP TABLE t".into()), Stmt::Begin], commit: false }),
         ("nested-begin-before-index-ddl", TxnCase { schema: s2.clone(), pre: pre.clone(), body: vec![Stmt::Begin, Stmt::CreateIndex("zz".into(), vec![0], false)], commit: false }),
+        // repaired defect e166b44f: a table created, filled, indexed and dropped after a savepoint
+        ("rollback-to-after-create-and-drop-table", TxnCase { schema: s2.clone(), pre: vec![], body: vec![Stmt::Insert(vec![vec![v(5), v(7)]]), Stmt::Savepoint("a".into()), Stmt::Raw("CREATE TABLE u (k INT PRIMARY KEY, w INT)".into()), Stmt::Raw("INSERT INTO u VALUES (2, 5)".into()), Stmt::Raw("CREATE INDEX uw ON u (w)".into()), Stmt::Raw("DROP TABLE u".into()), Stmt::Insert(vec![vec![v(7), v(1)]]), Stmt::RollbackTo("a".into())], commit: false }),
         // repaired defect 650ff828, kept as regression probes
         ("create-index-in-txn (regression: 650ff828)", TxnCase { schema: s2.clone(), pre: pre.clone(), body: vec![Stmt::CreateIndex("zz".into(), vec![0, 1], false)], commit: false }),
         ("drop-index-in-txn (regression: 650ff828)", TxnCase { schema: s2.clone(), pre: pre.clone(), body: vec![Stmt::DropIndex("qv".into())], commit: false }),
